@@ -132,6 +132,11 @@ BAD_DATES = ['', 'not a date', '13/45/2024', '2024-02-30', '00/00/0000', '31-31-
              '2024-03-10 08:30:00+00:00', '03/10/24x', '2024-3', '10.3.2024.', '1/2/3/4']
 
 
+import string as _string
+# any printable text a cell can carry (no lone carriage return: text-mode reading folds it into a newline, and no statement has one inside a cell)
+FREE_TEXT = st.text(alphabet=_string.ascii_letters + _string.digits + " .,;:|*#&'\"()[]{}?+^$\\/-_!@%=<>~`\t\n" + 'éÉßİ日本☕\u00a0', max_size=24)
+
+
 @st.composite
 def row(draw, lay):
     kind = draw(st.sampled_from(['good', 'good', 'good', 'good', 'short', 'bad_date', 'bad_amount', 'empty_desc', 'blank', 'long']))
@@ -141,7 +146,7 @@ def row(draw, lay):
     if sub and draw(st.booleans()):
         cents = draw(st.sampled_from([0, 0, 1, -1, 99]))  # amounts below one cent are amounts too: 0.004, 0.019, -0.011
     r = {'kind': kind, 'date': d.isoformat(), 'date_pad': draw(st.sampled_from(['', '', '', ' ', '  '])), 'unpadded': draw(st.booleans()), 'cents': cents, 'sub': sub, 'style': draw(amount_style),
-         'desc': draw(st.sampled_from(DESC_TEXT)), 'customs': {c: draw(st.sampled_from(DESC_TEXT + ['', ' ', 'WIRE', 'ACH-OUT'])) for c in lay['cols'] if c in CUSTOM_NAMES},
+         'desc': draw(st.one_of(st.sampled_from(DESC_TEXT), st.sampled_from(DESC_TEXT), st.sampled_from(DESC_TEXT), FREE_TEXT)), 'customs': {c: draw(st.sampled_from(DESC_TEXT + ['', ' ', 'WIRE', 'ACH-OUT'])) for c in lay['cols'] if c in CUSTOM_NAMES},
          'loc': draw(st.sampled_from(['', 'WA', 'Seattle, WA', ' NY '])), 'skip': draw(st.sampled_from(['', 'x', '1,5', 'ignored "q"']))}
     if kind == 'short':
         r['cut'] = draw(st.integers(0, len(lay['cols']) - 1))
